@@ -164,7 +164,7 @@ def obj_step(kind, o, op, path, val):
             return apply_path(o["v"], path)
         o["v"] = subst_path(o["v"], path, val)
         if kind == "persist":
-            o["db"] = o["v"]
+            o["db"] = [o["v"]]
         return None
     if kind == "dummy":
         return o["v"] if op == "r" else None
@@ -255,7 +255,7 @@ def obj_snap(kind, o, keys):
             out.append(o["default"] if c is None else c["v"])
         return T(*out)
     if kind == "persist":
-        return T(o["v"], T() if o["db"] is None else T(o["db"]))
+        return T(o["v"], T() if o["db"] is None else T(o["db"][0]))
     if kind == "incmap_persist":
         out = []
         for k in keys:
@@ -263,7 +263,7 @@ def obj_snap(kind, o, keys):
             if c is None:
                 out.append(T(o["default"], T()))
             else:
-                out.append(T(c["v"], T() if c["db"] is None else T(c["db"])))
+                out.append(T(c["v"], T() if c["db"] is None else T(c["db"][0])))
         return T(*out)
     if kind == "plog":
         return T(T(*o["log"]), T(*[T(i, o["db"][i]) for i in sorted(o["db"])]))
@@ -311,9 +311,12 @@ class Ref:
         tr, last = [], None
         wrote_before, sent_nontx = False, []
         outcome = None
+        touched = set()
         fault = at.get("fault")
         for k, op in enumerate(at["ops"]):
             try:
+                if op[0] in ("r", "w", "wl"):
+                    touched.add(op[1])          # the handle is marked dirty before anything else happens
                 if fault and fault["op"] == k:
                     # calls before the refused one may already panic (PersistentLog.Index out of range etc.): not generated
                     raise Block()
@@ -342,12 +345,15 @@ class Ref:
             except Crash:
                 outcome = 2; break
         if outcome is None:
-            outcome = 1 if at.get("pcfail") else 0
-        info = {"wrote_before_failure": wrote_before and outcome == 1, "sent_nontx": sent_nontx if outcome == 1 else []}
+            # only resources touched by the section take part in the commit protocol
+            outcome = 1 if set(at.get("pcfail") or []) & touched else 0
+        # the two kinds that are non-transactional by design: SingleOutputChan.Abort always panics,
+        # relaxedMailboxesRemote.Abort panics after a send; what was sent stays sent
+        panics = [self.kinds[n] for n in sorted(touched) if self.kinds[n] == "singleout"] + [k for k in sent_nontx if k == "relaxed"]
+        info = {"wrote_before_failure": wrote_before and outcome == 1, "sent_nontx": panics if outcome == 1 else []}
         if outcome == 0:
             self.state, self.pc = st, pc
-        if outcome == 1 and sent_nontx:
-            # the two kinds that are non-transactional by design: the message is out, Abort panics
+        if outcome == 1 and panics:
             for name in self.state:
                 if self.kinds[name] in ("singleout", "relaxed"):
                     self.state[name]["sent"] = st[name]["sent"]
@@ -652,7 +658,11 @@ def to_coq(case, results):
     q = ["(%s, %s)" % (vlib.coq_str(n), vlib.coq_list([coq_val(canon(k)) for k in keys])) for n, keys in case["snap"]]
     obs = []
     for a in results:
-        vals = [coq_val(canon(T(*(a.get("tr") or []))))] + [coq_val(canon(x)) for x in (a.get("snap") or [])]
+        snap = list(a.get("snap") or [])
+        if a["out"] == 3:
+            # a panic inside abort(): which resources were already rolled back depends on Go's map order
+            snap = [x if (n != ".pc" and case_kind(case, n) in ("singleout", "relaxed")) else None for (n, _), x in zip(case["snap"], snap)]
+        vals = [coq_val(canon(T(*(a.get("tr") or []))))] + [coq_val(canon(x)) for x in snap]
         obs.append("(%s, %s)" % (vlib.coq_Z(a["out"]), vlib.coq_list(vals)))
     return "(%s,\n  %s,\n  %s,\n  %s)" % (vlib.coq_list(rs), vlib.coq_list([coq_attempt(a) for a in case["attempts"]]).replace("; mkAttempt", ";\n   mkAttempt"),
                                         vlib.coq_list(q), vlib.coq_list(obs))
@@ -689,11 +699,13 @@ def oracle(case, results):
         how = "fault" if at.get("fault") else "pcfail" if at.get("pcfail") else "await" if ["await", False] in at["ops"] else "inherent"
         if exp_out == 3:
             stats["abort_panic"] += 1
-            kind = info_kind = sorted(set(info["sent_nontx"]))[0]
-            # known design limitation: the message of the failed attempt is out and the archetype dies
+            kind = sorted(set(info["sent_nontx"]))[0]
+            # known design limitation: the archetype dies in Abort; a message already written stays delivered
             if got["out"] == 3 or gsnap != prev_snap:
-                fails.append(("abort-after-send-" + kind,
-                              "attempt %d sent on %s and then failed (%s): Abort panics, the message stays delivered" % (i, kind, how)))
+                fails.append(("abort-panics-" + kind,
+                              "attempt %d touched %s and then failed (%s): Abort panics; what WriteValue sent stays delivered" % (i, kind, how)))
+            else:
+                fails.append(("outcome-%d-instead-of-3:%s:%s" % (got["out"], how, ks), "attempt %d: expected a panic in Abort of %s" % (i, kind)))
             break
         if got["out"] != exp_out:
             fails.append(("outcome-%d-instead-of-%d:%s:%s" % (got["out"], exp_out, how, ks),
@@ -789,22 +801,29 @@ def run(ctx):
     ctx.samples = [{"res": c["res"], "attempts": c["attempts"][:2], "go": c["_res"][:2]} for c in cases[:4]]
     # tie B: the model evaluated inside Coq on the same cases, against what the implementation did
     if ctx.coq_ok:
+        from concurrent.futures import ThreadPoolExecutor
         ok_cases = [c for c in cases if not byid[c["id"]].get("err")]
-        shard = 400
-        for s in range(0, len(ok_cases), shard):
-            part = ok_cases[s:s + shard]
+        shard = 100 if ctx.tier == "quick" else 400
+        parts = [ok_cases[s:s + shard] for s in range(0, len(ok_cases), shard)]
+
+        def eval_part(ip):
+            i, part = ip
             body = ("From PGV Require Import C01.Model.\nOpen Scope string_scope.\n"
                     "Definition cases : list (list (string * node) * list attempt * list (string * list val) * list (Z * list val)) :=\n [" +
                     ";\n ".join(to_coq(c, c["_res"]) for c in part) + "].\n"
                     "Definition M := Eval vm_compute in mismatches_from 0 cases.\nPrint M.\n")
-            rc, out, err = vlib.coq_eval("C01_cases_%d" % s, body)
+            return vlib.coq_eval("C01_cases_%d_%d" % (os.getpid(), i), body)
+
+        with ThreadPoolExecutor(max_workers=3) as ex:
+            outs = list(ex.map(eval_part, enumerate(parts)))
+        for part, (rc, out, err) in zip(parts, outs):
             mm = vlib.parse_nat_list(out, "M") if rc == 0 else None
             if mm is None:
                 ctx.breaks.append({"what": "correspondence evaluation C01_cases did not compile", "detail": (out + err)[-3000:]})
                 break
             for k in mm:
                 c = part[k]
-                rc2, out2, _ = vlib.coq_eval("C01_one", "From PGV Require Import C01.Model.\nOpen Scope string_scope.\n"
+                rc2, out2, _ = vlib.coq_eval("C01_one_%d" % os.getpid(), "From PGV Require Import C01.Model.\nOpen Scope string_scope.\n"
                                              "Definition c := %s.\nEval vm_compute in run_attempts (mk_ctx (fst (fst (fst c)))) (snd (fst (fst c))) (snd (fst c)).\n" % to_coq(c, c["_res"]))
                 ctx.breaks.append({"what": "correspondence C01/Model.v vs distsys differs on a case",
                                    "case": {k2: v for k2, v in c.items() if not k2.startswith("_")},
